@@ -1,0 +1,14 @@
+//go:build verif
+
+package definition
+
+// VerifHook is called, when set, at the linearization points of the flow cache: before the mutex is requested, once it
+// is held, on a cache hit, on a miss, after a newly read flow has been stored and before the mutex is released. It only
+// exists in builds with the verif tag and is used by the conformance harness to record and to schedule those steps.
+var VerifHook func(point string, owner any, key string)
+
+func verifHook(point string, owner any, key string) {
+	if h := VerifHook; h != nil {
+		h(point, owner, key)
+	}
+}
